@@ -261,6 +261,202 @@ def copy (src dst : String) (db : Int) (replace : Bool) : Out :=
   .argv ([U "COPY", S src, S dst, U "DB", N db] ++ (if replace then [U "REPLACE"] else []))
 end A
 
+/-! ### Option-struct methods, second batch: a small piece language
+
+For methods where the adapter builds its argv token by token in the same order as go-redis, ONE
+transcription (`P.*`, a list of pieces) serves both libraries: the adapter sends it with upper-case
+keywords (`build true`), go-redis with lower-case keywords (`build false`).  Where the two libraries
+differ (ZRANGE with REV+BYSCORE/BYLEX, the explicit `=` of XADD/XTRIM, sub-millisecond BLOCK) there are
+two transcriptions. -/
+
+inductive Piece
+  | kw (n : String)       -- keyword spelled by the library
+  | num (n : Int)
+  | str (s : String)      -- user data
+  | given (s : String)    -- keyword text supplied by the caller (unit, order, aggregate), sent as given
+  deriving DecidableEq, Repr
+
+def Piece.tok (up : Bool) : Piece → Tok
+  | .kw n => .kw n up
+  | .num n => N n
+  | .str s => S s
+  | .given s => .kw s.toUpper (s == s.toUpper)
+
+def build (up : Bool) (ps : List Piece) : List Tok := ps.map (Piece.tok up)
+
+namespace P
+open Piece
+
+def opt (c : Bool) (ps : List Piece) : List Piece := if c then ps else []
+def strs (xs : List String) : List Piece := xs.map str
+def nums (xs : List Int) : List Piece := xs.map num
+
+/-- score/member pairs; a missing partner is dropped (the harness always sends equal lengths) -/
+def pairs : List Int → List String → List Piece
+  | s :: ss, m :: ms => num s :: str m :: pairs ss ms
+  | _, _ => []
+
+/-- go-redis `zAddArgs` = adapter `zAddArgs`: NX excludes XX/GT/LT; XX combines with GT or LT; GT wins over LT -/
+def zAdd (key : String) (incr nx xx lt gt ch : Bool) (scores : List Int) (members : List String) : List Piece :=
+  [kw "ZADD", str key] ++
+  (if nx then [kw "NX"] else opt xx [kw "XX"] ++ (if gt then [kw "GT"] else opt lt [kw "LT"])) ++
+  opt ch [kw "CH"] ++ opt incr [kw "INCR"] ++ pairs scores members
+
+def limit (off cnt : Int) : List Piece := opt (off != 0 || cnt != 0) [kw "LIMIT", num off, num cnt]
+
+/-- ZRANGE / ZRANGESTORE options after the key(s) and the range -/
+def zRangeOpts (byScore byLex rev : Bool) (off cnt : Int) : List Piece :=
+  (if byScore then [kw "BYSCORE"] else opt byLex [kw "BYLEX"]) ++ opt rev [kw "REV"] ++ limit off cnt
+
+/-- the adapter: start and stop exactly as given -/
+def zRangeA (cmd : String) (keys : List String) (start stop : String) (byScore byLex rev : Bool) (off cnt : Int)
+    (withScores : Bool) : List Piece :=
+  [kw cmd] ++ strs keys ++ [str start, str stop] ++ zRangeOpts byScore byLex rev off cnt ++ opt withScores [kw "WITHSCORES"]
+
+/-- go-redis `ZRangeArgs.appendArgs`: "For Rev+ByScore/ByLex, we need to adjust the position of
+    <Start> and <Stop>" — it swaps them -/
+def zRangeG (cmd : String) (keys : List String) (start stop : String) (byScore byLex rev : Bool) (off cnt : Int)
+    (withScores : Bool) : List Piece :=
+  [kw cmd] ++ strs keys ++ (if rev && (byScore || byLex) then [str stop, str start] else [str start, str stop]) ++
+  zRangeOpts byScore byLex rev off cnt ++ opt withScores [kw "WITHSCORES"]
+
+/-- ZRANGEBYSCORE / ZRANGEBYLEX (min max) and ZREVRANGEBY* (max min): [WITHSCORES] [LIMIT off cnt] -/
+def zRangeBy (cmd key a b : String) (withScores : Bool) (off cnt : Int) : List Piece :=
+  [kw cmd, str key, str a, str b] ++ opt withScores [kw "WITHSCORES"] ++ limit off cnt
+
+/-- ZINTERSTORE/ZUNIONSTORE dest | ZINTER/ZUNION: numkeys keys [WEIGHTS w…] [AGGREGATE a] [WITHSCORES] -/
+def zStore (cmd : String) (dest : List String) (keys : List String) (weights : List Int) (agg : String)
+    (withScores : Bool) : List Piece :=
+  [kw cmd] ++ strs dest ++ [num keys.length] ++ strs keys ++
+  opt (!weights.isEmpty) (kw "WEIGHTS" :: nums weights) ++ opt (agg != "") [kw "AGGREGATE", given agg] ++
+  opt withScores [kw "WITHSCORES"]
+
+/-- XADD; `explicitEq` = the adapter writes the exact-trim operator `=`, go-redis leaves it out -/
+def xAdd (explicitEq : Bool) (stream : String) (noMk : Bool) (maxLen : Int) (minID : String) (approx : Bool)
+    (lim : Int) (id : String) (values : List String) : List Piece :=
+  [kw "XADD", str stream] ++ opt noMk [kw "NOMKSTREAM"] ++
+  (if 0 < maxLen then [kw "MAXLEN"] ++ (if approx then [kw "~"] else opt explicitEq [kw "="]) ++ [num maxLen]
+   else if minID != "" then [kw "MINID"] ++ (if approx then [kw "~"] else opt explicitEq [kw "="]) ++ [str minID]
+   else []) ++
+  opt (0 < lim) [kw "LIMIT", num lim] ++ [if id != "" then str id else kw "*"] ++ strs values
+
+/-- XTRIM key MAXLEN|MINID [~|=] threshold [LIMIT n] -/
+def xTrim (explicitEq : Bool) (key strategy : String) (approx : Bool) (threshold : Piece) (lim : Int) : List Piece :=
+  [kw "XTRIM", str key, kw strategy] ++ (if approx then [kw "~"] else opt explicitEq [kw "="]) ++ [threshold] ++
+  opt (0 < lim) [kw "LIMIT", num lim]
+
+/-- XREAD [COUNT n] [BLOCK ms] STREAMS …; `blockMs` is the library's conversion of the duration -/
+def xRead (streams : List String) (count block blockMs : Int) : List Piece :=
+  [kw "XREAD"] ++ opt (0 < count) [kw "COUNT", num count] ++ opt (0 ≤ block) [kw "BLOCK", num blockMs] ++
+  [kw "STREAMS"] ++ strs streams
+
+def xReadGroup (group consumer : String) (streams : List String) (count block blockMs : Int) (noAck : Bool) : List Piece :=
+  [kw "XREADGROUP", kw "GROUP", str group, str consumer] ++ opt (0 < count) [kw "COUNT", num count] ++
+  opt (0 ≤ block) [kw "BLOCK", num blockMs] ++ opt noAck [kw "NOACK"] ++ [kw "STREAMS"] ++ strs streams
+
+def xPendingExt (stream group start stop consumer : String) (idle idleMs count : Int) : List Piece :=
+  [kw "XPENDING", str stream, str group] ++ opt (idle != 0) [kw "IDLE", num idleMs] ++
+  [str start, str stop, num count] ++ opt (consumer != "") [str consumer]
+
+def xAutoClaim (stream group start consumer : String) (minIdle count : Int) (justID : Bool) : List Piece :=
+  [kw "XAUTOCLAIM", str stream, str group, str consumer, num (formatMs minIdle), str start] ++
+  opt (0 < count) [kw "COUNT", num count] ++ opt justID [kw "JUSTID"]
+
+/-- SORT / SORT_RO key [BY p] [LIMIT o c] [GET p]… [order] [ALPHA] [STORE dst] -/
+def sort (cmd key by_ : String) (order : List Piece) (gets : List String) (off cnt : Int) (alpha : Bool) (store : List String) : List Piece :=
+  [kw cmd, str key] ++ opt (by_ != "") [kw "BY", str by_] ++ limit off cnt ++
+  (gets.map fun g => [kw "GET", str g]).flatten ++ order ++ opt alpha [kw "ALPHA"] ++
+  (store.map fun d => [kw "STORE", str d]).flatten
+
+/-- GEOSEARCH / GEOSEARCHSTORE query part -/
+def geoQuery (member rUnit bUnit sortOrd : String) (lon lat radius bw bh count : Int) (any : Bool) : List Piece :=
+  (if member != "" then [kw "FROMMEMBER", str member] else [kw "FROMLONLAT", num lon, num lat]) ++
+  (if 0 < radius then [kw "BYRADIUS", num radius, if rUnit == "" then kw "KM" else given rUnit]
+   else [kw "BYBOX", num bw, num bh, if bUnit == "" then kw "KM" else given bUnit]) ++
+  opt (sortOrd != "") [given sortOrd] ++ (if 0 < count then [kw "COUNT", num count] ++ opt any [kw "ANY"] else [])
+end P
+
+/-- the adapter upper-cases the order it accepts; go-redis forwards the caller's text -/
+def sortOrderA (order : String) : List Piece := P.opt (order != "") [.kw order.toUpper]
+def sortOrderG (order : String) : List Piece := P.opt (order != "") [.given order]
+
+/-- the adapter refuses a SORT order other than "", ASC, DESC (any letter case) -/
+def sortOrderOK (order : String) : Bool := order == "" || order.toUpper == "ASC" || order.toUpper == "DESC"
+
+/-- go-redis' XREAD/XREADGROUP/XPENDING conversion: plain truncating division (no round-up of sub-ms) -/
+def plainMs (d : Int) : Int := d.tdiv ms
+
+/-- second batch: (adapter argv, go-redis argv) -/
+def both2 (m : String) (vs : List Val) : Option (Out × Out) :=
+  let same (ps : List Piece) : Option (Out × Out) := some (.argv (build true ps), .argv (build false ps))
+  let two (a g : List Piece) : Option (Out × Out) := some (.argv (build true a), .argv (build false g))
+  match m, vs with
+  | "ZAdd", [.s k, .il sc, .l ms] => same (P.zAdd k false false false false false false sc ms)
+  | "ZAddNX", [.s k, .il sc, .l ms] => same (P.zAdd k false true false false false false sc ms)
+  | "ZAddXX", [.s k, .il sc, .l ms] => same (P.zAdd k false false true false false false sc ms)
+  | "ZAddLT", [.s k, .il sc, .l ms] => same (P.zAdd k false false false true false false sc ms)
+  | "ZAddGT", [.s k, .il sc, .l ms] => same (P.zAdd k false false false false true false sc ms)
+  | "ZAddArgs", [.s k, .b nx, .b xx, .b lt, .b gt, .b ch, .il sc, .l ms] => same (P.zAdd k false nx xx lt gt ch sc ms)
+  | "ZAddArgsIncr", [.s k, .b nx, .b xx, .b lt, .b gt, .b ch, .il sc, .l ms] => same (P.zAdd k true nx xx lt gt ch sc ms)
+  | "ZRangeArgs", [.s k, .s a, .s b, .b bs, .b bl, .b rv, .i o, .i c] =>
+    two (P.zRangeA "ZRANGE" [k] a b bs bl rv o c false) (P.zRangeG "ZRANGE" [k] a b bs bl rv o c false)
+  | "ZRangeArgsWithScores", [.s k, .s a, .s b, .b bs, .b bl, .b rv, .i o, .i c] =>
+    two (P.zRangeA "ZRANGE" [k] a b bs bl rv o c true) (P.zRangeG "ZRANGE" [k] a b bs bl rv o c true)
+  | "ZRangeStore", [.s d, .s k, .s a, .s b, .b bs, .b bl, .b rv, .i o, .i c] =>
+    two (P.zRangeA "ZRANGESTORE" [d, k] a b bs bl rv o c false) (P.zRangeG "ZRANGESTORE" [d, k] a b bs bl rv o c false)
+  | "ZRangeByScore", [.s k, .s mn, .s mx, .i o, .i c] => same (P.zRangeBy "ZRANGEBYSCORE" k mn mx false o c)
+  | "ZRangeByLex", [.s k, .s mn, .s mx, .i o, .i c] => same (P.zRangeBy "ZRANGEBYLEX" k mn mx false o c)
+  | "ZRangeByScoreWithScores", [.s k, .s mn, .s mx, .i o, .i c] => same (P.zRangeBy "ZRANGEBYSCORE" k mn mx true o c)
+  | "ZRevRangeByScore", [.s k, .s mn, .s mx, .i o, .i c] => same (P.zRangeBy "ZREVRANGEBYSCORE" k mx mn false o c)
+  | "ZRevRangeByLex", [.s k, .s mn, .s mx, .i o, .i c] => same (P.zRangeBy "ZREVRANGEBYLEX" k mx mn false o c)
+  | "ZRevRangeByScoreWithScores", [.s k, .s mn, .s mx, .i o, .i c] => same (P.zRangeBy "ZREVRANGEBYSCORE" k mx mn true o c)
+  | "ZInterStore", [.s d, .l ks, .il ws, .s ag] => same (P.zStore "ZINTERSTORE" [d] ks ws ag false)
+  | "ZUnionStore", [.s d, .l ks, .il ws, .s ag] => same (P.zStore "ZUNIONSTORE" [d] ks ws ag false)
+  | "ZInter", [.l ks, .il ws, .s ag] => same (P.zStore "ZINTER" [] ks ws ag false)
+  | "ZUnion", [.l ks, .il ws, .s ag] => same (P.zStore "ZUNION" [] ks ws ag false)
+  | "ZInterWithScores", [.l ks, .il ws, .s ag] => same (P.zStore "ZINTER" [] ks ws ag true)
+  | "ZUnionWithScores", [.l ks, .il ws, .s ag] => same (P.zStore "ZUNION" [] ks ws ag true)
+  | "XAdd", [.s st, .b nm, .i ml, .s mi, .b ap, .i li, .s id, .l vals] =>
+    two (P.xAdd true st nm ml mi ap li id vals) (P.xAdd false st nm ml mi ap li id vals)
+  | "XTrimMaxLen", [.s k, .i n] => two (P.xTrim true k "MAXLEN" false (.num n) 0) (P.xTrim false k "MAXLEN" false (.num n) 0)
+  | "XTrimMaxLenApprox", [.s k, .i n, .i li] => two (P.xTrim true k "MAXLEN" true (.num n) li) (P.xTrim false k "MAXLEN" true (.num n) li)
+  | "XTrimMinID", [.s k, .s id] => two (P.xTrim true k "MINID" false (.str id) 0) (P.xTrim false k "MINID" false (.str id) 0)
+  | "XTrimMinIDApprox", [.s k, .s id, .i li] => two (P.xTrim true k "MINID" true (.str id) li) (P.xTrim false k "MINID" true (.str id) li)
+  | "XRead", [.l ss, .i c, .i b] => two (P.xRead ss c b (formatMs b)) (P.xRead ss c b (plainMs b))
+  | "XReadGroup", [.s g, .s cn, .l ss, .i c, .i b, .b na] =>
+    two (P.xReadGroup g cn ss c b (formatMs b) na) (P.xReadGroup g cn ss c b (plainMs b) na)
+  | "XPendingExt", [.s st, .s g, .s a, .s e, .s cn, .i idle, .i c] =>
+    two (P.xPendingExt st g a e cn idle (formatMs idle) c) (P.xPendingExt st g a e cn idle (plainMs idle) c)
+  | "XAutoClaim", [.s st, .s g, .s a, .s cn, .i mi, .i c] => same (P.xAutoClaim st g a cn mi c false)
+  | "XAutoClaimJustID", [.s st, .s g, .s a, .s cn, .i mi, .i c] => same (P.xAutoClaim st g a cn mi c true)
+  | "Sort", [.s k, .s by_, .s ord, .l gets, .i o, .i c, .b al] =>
+    let g := P.sort "SORT" k by_ (sortOrderG ord) gets o c al []
+    if sortOrderOK ord then two (P.sort "SORT" k by_ (sortOrderA ord) gets o c al []) g
+    else some (.nothing, .argv (build false g))
+  | "SortRO", [.s k, .s by_, .s ord, .l gets, .i o, .i c, .b al] =>
+    let g := P.sort "SORT_RO" k by_ (sortOrderG ord) gets o c al []
+    if sortOrderOK ord then two (P.sort "SORT_RO" k by_ (sortOrderA ord) gets o c al []) g
+    else some (.nothing, .argv (build false g))
+  | "SortStore", [.s k, .s d, .s by_, .s ord, .l gets, .i o, .i c, .b al] =>
+    let g := P.sort "SORT" k by_ (sortOrderG ord) gets o c al [d]
+    if sortOrderOK ord then two (P.sort "SORT" k by_ (sortOrderA ord) gets o c al [d]) g
+    else some (.nothing, .argv (build false g))
+  | "GeoSearch", [.s k, .s mb, .s ru, .s bu, .s so, .i lon, .i lat, .i r, .i bw, .i bh, .i c, .b any] =>
+    same ([.kw "GEOSEARCH", .str k] ++ P.geoQuery mb ru bu so lon lat r bw bh c any)
+  | "GeoSearchLocation", [.s k, .s mb, .s ru, .s bu, .s so, .i lon, .i lat, .i r, .i bw, .i bh, .i c, .b any, .b wc, .b wd, .b wh] =>
+    same ([.kw "GEOSEARCH", .str k] ++ P.geoQuery mb ru bu so lon lat r bw bh c any ++
+      P.opt wc [.kw "WITHCOORD"] ++ P.opt wd [.kw "WITHDIST"] ++ P.opt wh [.kw "WITHHASH"])
+  | "GeoSearchStore", [.s src, .s dst, .s mb, .s ru, .s bu, .s so, .i lon, .i lat, .i r, .i bw, .i bh, .i c, .b any, .b sd] =>
+    same ([.kw "GEOSEARCHSTORE", .str dst, .str src] ++ P.geoQuery mb ru bu so lon lat r bw bh c any ++ P.opt sd [.kw "STOREDIST"])
+  | _, _ => none
+
+def covered2 : List String := ["ZAdd", "ZAddNX", "ZAddXX", "ZAddLT", "ZAddGT", "ZAddArgs", "ZAddArgsIncr",
+  "ZRangeArgs", "ZRangeArgsWithScores", "ZRangeStore", "ZRangeByScore", "ZRangeByLex", "ZRangeByScoreWithScores",
+  "ZRevRangeByScore", "ZRevRangeByLex", "ZRevRangeByScoreWithScores", "ZInterStore", "ZUnionStore", "ZInter", "ZUnion",
+  "ZInterWithScores", "ZUnionWithScores", "XAdd", "XTrimMaxLen", "XTrimMaxLenApprox", "XTrimMinID", "XTrimMinIDApprox",
+  "XRead", "XReadGroup", "XPendingExt", "XAutoClaim", "XAutoClaimJustID", "Sort", "SortRO", "SortStore",
+  "GeoSearch", "GeoSearchLocation", "GeoSearchStore"]
+
 /-! ### Dispatch by method name (used by the correspondence driver) -/
 
 /-- (adapter argv, go-redis argv) of a call; `none` = method not transcribed or arguments outside
@@ -297,12 +493,12 @@ def both (m : String) (vs : List Val) : Option (Out × Out) :=
     | "LInsertBefore", [.s k, .s p, .s v] => some (A.lInsertBefore k p v, G.lInsertBefore k p v)
     | "LInsertAfter", [.s k, .s p, .s v] => some (A.lInsertAfter k p v, G.lInsertAfter k p v)
     | "Copy", [.s a, .s b, .i db, .b r] => some (A.copy a b db r, G.copy a b db r)
-    | _, _ => none
+    | _, _ => both2 m vs
 
 /-- methods transcribed (for the coverage count) -/
 def covered : List String :=
   simpleTable.map (·.1) ++ ["Set", "SetNX", "SetXX", "SetArgs", "GetEx", "Expire", "ExpireNX", "ExpireXX", "ExpireGT",
     "ExpireLT", "PExpire", "ExpireAt", "PExpireAt", "BitCount", "BitPos", "BitPosSpan", "Scan", "ScanType", "SScan",
-    "HScan", "ZScan", "LInsert", "LInsertBefore", "LInsertAfter", "Copy"]
+    "HScan", "ZScan", "LInsert", "LInsertBefore", "LInsertAfter", "Copy"] ++ covered2
 
 end Rv.GoRedisArgv
